@@ -38,13 +38,31 @@ def _judge_star(args):
     return judge(*args)
 
 
-def judge_sharded(module, items, shards=8, aux_modules=None):
+def judge_sharded(module, items, shards=8, aux_modules=None, max_bytes=6 << 20, max_items=600):
+    """judge in batches (one TLC run each, at most `shards` at a time); a batch holds at most
+    max_items observations / max_bytes of JSON so that TLC's heap is never the limit"""
+    if not items:
+        return {}, []
     if len(items) < 64:
-        shards = 1
-    parts = [items[k::shards] for k in range(shards)]
-    parts = [p for p in parts if p]
+        parts = [items]
+    else:
+        per = max(1, -(-len(items) // shards))
+        per = min(per, max_items)
+        parts = []
+        cur = []
+        size = 0
+        for it in items:
+            n = len(json.dumps(it))
+            if cur and (len(cur) >= per or size + n > max_bytes):
+                parts.append(cur)
+                cur = []
+                size = 0
+            cur.append(it)
+            size += n
+        if cur:
+            parts.append(cur)
     ctx = multiprocessing.get_context('fork')
-    with ctx.Pool(len(parts)) as pool:
+    with ctx.Pool(min(shards, len(parts))) as pool:
         rs = pool.map(_judge_star, [(module, p, 3600, aux_modules) for p in parts])
     fails = {}
     stats = []
